@@ -482,3 +482,4 @@ Definition safe (s : state) : list tok :=
   toks_of_chunks (acked s) ++ toks_of_chunks (files s) ++ toks_of_chunks (dropped s).
 
 Definition is_flush_timeout (e : event) : bool := match e with EFlushTimeout _ _ => true | _ => false end.
+Definition no_timeout (es : list event) : bool := forallb (fun e => negb (is_flush_timeout e)) es.
